@@ -50,6 +50,7 @@ def run(idx: ProgramIndex, rep: Report, tier: str):
     two_d_primitives_guarded(idx, rep)
     own_leading_shape(idx, rep)
     result_buffers_broadcast(idx, rep)
+    sizes_from_the_right(idx, rep)
 
 
 def _families(idx: ProgramIndex) -> List[ClassInfo]:
@@ -678,3 +679,43 @@ def result_buffers_broadcast(idx: ProgramIndex, rep: Report):
                 "result buffers take a broadcast batch shape" if not probs else
                 "; ".join(sorted(probs)) + ": with a batch carried by the other input or by the kernel's parameters (batch_shape=[b] on shared inputs) the block stores raise, while every kernel that computes its result by broadcasting handles the same call", {})
     rep.floor("C08-11", "kernels assembling their result in a pre-allocated buffer", n, 3)
+
+
+# ---- C08-12 --------------------------------------------------------------------------------------------------------
+def _left_size_queries(fn_node: ast.AST, params) -> list:
+    """len(p) / p.size(k) / p.shape[k] with k >= 0 on a tensor parameter p"""
+    out = []
+    for x in ast.walk(fn_node):
+        if isinstance(x, ast.Call) and chain(x.func) == "len" and len(x.args) == 1 and isinstance(x.args[0], ast.Name) and x.args[0].id in params:
+            out.append((x, "len(%s)" % x.args[0].id))
+        elif isinstance(x, ast.Call) and isinstance(x.func, ast.Attribute) and x.func.attr == "size" and isinstance(x.func.value, ast.Name) and x.func.value.id in params \
+                and len(x.args) == 1 and isinstance(x.args[0], ast.Constant) and isinstance(x.args[0].value, int) and x.args[0].value >= 0:
+            out.append((x, "%s.size(%d)" % (x.func.value.id, x.args[0].value)))
+        elif isinstance(x, ast.Subscript) and isinstance(x.value, ast.Attribute) and x.value.attr == "shape" and isinstance(x.value.value, ast.Name) and x.value.value.id in params \
+                and isinstance(x.slice, ast.Constant) and isinstance(x.slice.value, int) and x.slice.value >= 0:
+            out.append((x, "%s.shape[%d]" % (x.value.value.id, x.slice.value)))
+    return out
+
+
+def sizes_from_the_right(idx: ProgramIndex, rep: Report):
+    """The objectives divide by the number of data points.  For a batched model the leading axis of targets / outputs is a batch axis, so
+    the number of points is `t.size(-1)` (or the event shape of the distribution) - never `len(t)`, `t.size(0)` or `t.shape[0]`, which
+    give the number of points only for un-batched models (where every test passes)."""
+    rep.rule("C08-12", "objective code reads the sizes of its tensor arguments from the right (no len(t) / t.size(k) / t.shape[k] with k >= 0 on targets or outputs)")
+    base = idx.find_class("MarginalLogLikelihood")
+    n = 0
+    for cls in sorted([base] + list(idx.subclasses(base)), key=lambda c: c.qualname):
+        for mname, m in sorted(cls.methods.items()):
+            if mname.startswith("__"):
+                continue
+            params = set(m.params[1:])
+            n += 1
+            hits = _left_size_queries(m.node, params)
+            rep.add("C08-12", "%s:%s.%s" % (cls.module.name, cls.qualname, mname), m.where, not hits,
+                    "sizes are read from the right / from event shapes" if not hits else
+                    ", ".join("`%s` (line %d)" % (t, x.lineno) for x, t in hits) + ": for batched targets (*batch_shape x n) this is the leading batch size, not the number of points - element b of a batched objective no longer equals the objective of replica b", {})
+    # positive control
+    ctl = ast.parse("def forward(self, dist, target):\n    return dist.log_prob(target) / len(target)\n")
+    if [t for _x, t in _left_size_queries(ctl, {"dist", "target"})] != ["len(target)"]:
+        raise AnalysisError("C08-12: positive control not matched")
+    rep.floor("C08-12", "methods of the objective classes", n, 15)
